@@ -200,7 +200,7 @@ FACETS = [
     Facet('np/circuit-configs', f_circuit, strategy=lambda t: st_case('np', 4 if t == 'quick' else 5, 10 if t == 'quick' else 14, CONFIGS),
           examples={'quick': 2400, 'thorough': 100000}, shards={'quick': 4, 'thorough': 16}),
     Facet('np/locality', f_locality, strategy=lambda t: st_locality('np', 5), examples={'quick': 1500, 'thorough': 40000}, shards={'quick': 1, 'thorough': 4}),
-    Facet('torch/circuit-configs', f_circuit, strategy=lambda t: st_case_torch(4, 8), examples={'quick': 300, 'thorough': 10000},
+    Facet('torch/circuit-configs', f_circuit, strategy=lambda t: st_case_torch(4, 8), examples={'quick': 900, 'thorough': 10000},
           shards={'quick': 2, 'thorough': 8}, backend='torch'),
 ]
 
@@ -328,3 +328,64 @@ FACETS.append(Facet('torch/compose-histories', f_compose_history, strategy=lambd
 
 from harness.fuzzfacet import make_fuzz_facet
 FACETS.append(make_fuzz_facet('np/atheris-circuit', 'c09', {'circuit': f_circuit}, {'quick': 3000, 'thorough': 120000}, max_len=256))
+
+
+# ---- registers of 9..70 qubits: gates on the first and the last qubits, labels as Python ints or NumPy integers of several widths ----------
+BIG_CONFIGS = [('CliffordCircuit', 'orig', 'none'), ('CliffordCircuit', 'orig', 'circuit'), ('CliffordCircuit', 'orig', 'layers'), ('CliffordCircuit', 'copy', 'none'),
+               ('CliffordCircuit', 'compose', 'none'), ('Circuit', 'orig', 'none'), ('Circuit', 'orig', 'circuit')]
+
+
+def f_big_circuit(case):
+    """the circuit acts as the ordered product of its gates on large registers too (no dense matrices: the reference Clifford model composes
+    the embedded gates); gates sit on low and on high qubit indices so that every pair of consecutive gates is likely to overlap."""
+    be, N, prog = case['be'], case['N'], case['prog']
+    cfg = tuple(case['cfg'])
+    circ, gates = build(be, N, prog, cfg, case.get('split'))
+    rs = np.random.RandomState(case['seed'])
+    L = rs.randint(0, 4, size=(5, N)) * (rs.randint(0, 4, size=(5, N)) == 0)
+    pool = sorted(set(q for gd in prog for q in gd['qubits']))
+    for row in L:                      # make sure the inputs act on the qubits the gates touch
+        for q in pool:
+            if rs.randint(0, 2):
+                row[q] = rs.randint(1, 4)
+    K = rs.randint(0, 4, size=5)
+    Bk = B.backend(be)
+    obj = Bk.plist(L, K)
+    circ.forward(obj)
+    total = C.program_ref(prog, N, gates)
+    C.expect_list(Bk.read_list(obj), total.apply(L, K), 'circuit.forward (%s) on %d qubits, labels %s: vs reference product of %d gates' % (
+        '/'.join(cfg), N, case['labels'], len(prog)), 'big-forward')
+    circ.backward(obj)
+    C.expect_list(Bk.read_list(obj), (L, K), 'backward after forward (%s) on %d qubits, labels %s' % ('/'.join(cfg), N, case['labels']), 'big-roundtrip')
+    hi = max(pool) if pool else 0
+    return {'nt': len(prog) >= 3 and hi >= 8 and _noncommuting_overlap(prog, N), 'labels': ['N=%d' % N, 'labels=%s' % case['labels'], 'cfg=' + '/'.join(cfg)]}
+
+
+def st_big_circuit(be, kinds=None):
+    kinds = kinds or ['rot', 'H', 'S', 'X', 'Y', 'Z', 'C', 'CNOT']
+
+    def inner(t):
+        N, labels = t
+        pool = [0, 1, 2, N - 3, N - 2, N - 1]
+
+        def gate(kind):
+            if kind == 'rot':
+                return st.integers(1, 2).flatmap(lambda n: st.fixed_dictionaries({'kind': st.just('rot'), 'qubits': st.permutations(pool).map(lambda p: sorted(p[:n])),
+                                                                                  'gen': gen.st_herm(n, nonidentity=True), 'genform': st.just('pauli')}))
+            if kind == 'CNOT':
+                return st.fixed_dictionaries({'kind': st.just('CNOT'), 'qubits': st.permutations(pool).map(lambda p: list(p[:2]))})
+            if kind == 'C':
+                return st.fixed_dictionaries({'kind': st.just('C'), 'qubits': st.sampled_from(pool).map(lambda q: [q]), 'num': st.integers(0, 23)})
+            return st.fixed_dictionaries({'kind': st.just(kind), 'qubits': st.sampled_from(pool).map(lambda q: [q])})
+        g = st.sampled_from(kinds).flatmap(gate).map(lambda d: dict(d, labels=labels, labels_torch=True) if labels != 'int' else d)
+        cfgs = BIG_CONFIGS if be == 'np' else [c for c in BIG_CONFIGS if c[0] == 'CliffordCircuit']
+        return st.fixed_dictionaries({'be': st.just(be), 'N': st.just(N), 'labels': st.just(labels), 'prog': st.lists(g, min_size=2, max_size=9),
+                                      'cfg': st.sampled_from(cfgs).map(list), 'split': st.integers(0, 9), 'seed': st.integers(0, 10 ** 6)})
+    sizes = [(9, 'uint8'), (12, 'uint8'), (12, 'int8'), (40, 'int32'), (40, 'uint32'), (66, 'int64'), (66, 'intp'), (70, 'int64'), (70, 'uint64'), (66, 'int'), (40, 'int'), (70, 'uint8'), (33, 'uint16')]
+    if be == 'torch':       # torch.tensor(labels) of an unsigned 8-bit type is an (old style) mask, not an index: signed labels only
+        sizes = [(12, 'int64'), (40, 'int32'), (66, 'int64'), (66, 'intp'), (70, 'int64'), (66, 'int'), (40, 'int'), (70, 'int32')]
+    return st.sampled_from(sizes).flatmap(inner)
+
+
+FACETS.append(Facet('np/large-registers', f_big_circuit, strategy=lambda t: st_big_circuit('np'), examples={'quick': 400, 'thorough': 20000}, shards={'quick': 2, 'thorough': 8}))
+FACETS.append(Facet('torch/large-registers', f_big_circuit, strategy=lambda t: st_big_circuit('torch', ['rot']), examples={'quick': 150, 'thorough': 6000}, shards={'quick': 1, 'thorough': 4}, backend='torch'))
